@@ -284,6 +284,14 @@ fn exec_hex(ws: &[&str]) -> String {
                 None => format!("panic ; {} x{}", b.len(), hexstr(&b)),
             }
         }
+        ["fmt", h] => {
+            // Display and Debug of a Hex are its print()
+            let Some(x) = parse_hex_tok(h) else { return bad() };
+            match guard(|| format!("ok {} {}", format!("{x}") == x.print(), format!("{x:?}") == x.print())) {
+                Some(s) => format!("{s} ; ok true true"),
+                None => "panic ; ok true true".to_string(),
+            }
+        }
         ["empty"] => {
             // Hex::empty(): built from no bytes at all
             match guard(|| { let x = Hex::empty(); format!("ok {} {} x{} {} {}", x.len(), x.print(), hexstr(x.bytes()), x.is_empty(), x == Hex::from_slice(&[])) }) {
